@@ -55,6 +55,8 @@ def check(run):
         from . import C07 as _C07d
         bd = run.borrow("C07", why="tagged csp rules and exceptions sit in the csp list and are gated by the enabled set at match time: the caller's set must be re-applied after every load, whatever the loaded data contains")
         run.guard("C15.via.C07.4.deserialize", cfg, lambda: _C07d.rule_deserialize(bd, F, cfg))
+        be = run.borrow("C01", why="csp rules that differ only in their tag are different rules: no entry point may de-duplicate them away")
+        run.guard("C15.via.C01.9.entry-points", cfg, lambda: _C01.rule_entry_points(be, F, cfg))
 
 
 def rule_type_gate(run, F, cfg):
